@@ -5,6 +5,7 @@ import (
 	"go/constant"
 	"go/token"
 	"go/types"
+	"os"
 	"strings"
 
 	"golang.org/x/tools/go/ssa"
@@ -77,6 +78,8 @@ type decideRun struct {
 	// mem: what the decided path has stored into local variables that live in memory (structs built
 	// field by field, result slots): address key -> value
 	mem map[string]AV
+	// live: address keys of the objects allocated on this run's path
+	live map[string]bool
 }
 
 // addrKey names a location inside a local Alloc (the alloc itself or a field path in it).
@@ -122,7 +125,24 @@ func (r *decideRun) storeMem(key string, a AV) {
 	r.mem[key] = a
 }
 
+// liveBase: was the object behind this address key allocated on the decided path (in this run or in a run it
+// was called from)?  Only then do its never-written parts hold their zero value; an object that existed before
+// the decided stretch began (iteration mode, a helper handed a pointer) holds what its earlier life left there.
+func (r *decideRun) liveBase(key string) bool {
+	base := key
+	if i := strings.Index(key, ".f"); i >= 0 {
+		base = key[:i]
+	}
+	for run := r; run != nil; run = run.parent {
+		if run.live[base] {
+			return true
+		}
+	}
+	return false
+}
+
 func (r *decideRun) loadMem(key string, t types.Type) (AV, bool) {
+	live := r.liveBase(key)
 	if st, isStruct := t.Underlying().(*types.Struct); isStruct {
 		out := AV{Kind: "struct", Fields: map[string]AV{}}
 		for k, v := range r.mem {
@@ -133,7 +153,7 @@ func (r *decideRun) loadMem(key string, t types.Type) (AV, bool) {
 		// fields never written hold their zero value
 		for i := 0; i < st.NumFields(); i++ {
 			suffix := fmt.Sprintf(".f%d", i)
-			if _, has := out.Fields[suffix]; !has {
+			if _, has := out.Fields[suffix]; !has && live {
 				if z, ok := zeroAV(st.Field(i).Type()); ok {
 					out.Fields[suffix] = z
 				}
@@ -143,6 +163,9 @@ func (r *decideRun) loadMem(key string, t types.Type) (AV, bool) {
 	}
 	if a, ok := r.mem[key]; ok {
 		return a, true
+	}
+	if !live {
+		return AV{}, false
 	}
 	// an Alloc starts zeroed
 	return zeroAV(t)
@@ -359,7 +382,7 @@ func (r *decideRun) eval1(v ssa.Value) AV {
 				r.err = ""
 			}
 		}
-		if sc == nil || sc.Blocks == nil || r.depth >= 3 {
+		if sc == nil || sc.Blocks == nil || r.depth >= 6 {
 			// an external function applied to symbolic operands (strings.Contains(v0, v1) inside a table
 			// entry, or the function itself stored in the table): the rule may know the answer
 			if decideSymCall != nil && !x.Call.IsInvoke() {
@@ -381,7 +404,7 @@ func (r *decideRun) eval1(v ssa.Value) AV {
 					}
 				}
 			}
-			return r.fail("call %s not covered by the oracle", x.Name())
+			return r.fail("call %s not covered by the oracle (%s)", x.Name(), x.String())
 		}
 		var fval AV
 		if x.Call.StaticCallee() == nil {
@@ -669,6 +692,14 @@ func (r *decideRun) run() ([]AV, string) {
 				r.err = saved
 			}
 		}
+		for _, in := range r.cur.Instrs {
+			if al, isAl := in.(*ssa.Alloc); isAl {
+				if r.live == nil {
+					r.live = map[string]bool{}
+				}
+				r.live[fmt.Sprintf("a%p", al)] = true
+			}
+		}
 		// memory of local variables, in execution order
 		for _, in := range r.cur.Instrs {
 			switch x := in.(type) {
@@ -679,10 +710,30 @@ func (r *decideRun) run() ([]AV, string) {
 					r.err = saved
 					r.storeMem(key, a)
 				}
+			case *ssa.Call:
+				// a local strings.Builder: its content is part of the path's memory
+				r.builderStep(x)
 			case *ssa.UnOp:
 				if x.Op == token.MUL {
 					if key, ok := r.addrKey(x.X); ok {
-						if _, covered := r.oracle(x); !covered {
+						// what the path itself stored there comes first; then the oracle; then the zero value of
+						// an object allocated on the path
+						written := false
+						if _, has := r.mem[key]; has {
+							written = true
+						} else {
+							for k := range r.mem {
+								if strings.HasPrefix(k, key+".f") {
+									written = true
+									break
+								}
+							}
+						}
+						covered := false
+						if !written {
+							_, covered = r.oracle(x)
+						}
+						if !covered {
 							if a, okL := r.loadMem(key, x.Type()); okL && (a.Kind != "unknown" || a.Dyn != nil) {
 								r.memo[x] = a
 							}
@@ -751,6 +802,9 @@ func (r *decideRun) subRun(sc *ssa.Function, callArgs []ssa.Value, fval AV) *dec
 				// a struct handed over by value, built by a literal
 				if sv, ok := structLiteralAV(r, callArgs[i]); ok {
 					a = sv
+				} else if _, isFn := callArgs[i].Type().Underlying().(*types.Signature); isFn && r.parent == nil && suppliedFromOutside(callArgs[i]) {
+					// a callback the decided function was itself given, handed on to a helper
+					a = AV{Kind: "sym", Sym: "external-func"}
 				} else {
 					a = AV{Kind: "sym", Sym: "arg:" + callArgs[i].Name()}
 				}
@@ -797,6 +851,14 @@ func (r *decideRun) subRun(sc *ssa.Function, callArgs []ssa.Value, fval AV) *dec
 	return sub
 }
 
+// DecideMem is Decide plus what the decided path stored into memory (address key -> value; the fields of an
+// object the oracle named "alloc:NAME" appear under "aNAME.f<i>").
+func DecideMem(fn *ssa.Function, oracle Oracle) (res []AV, mem map[string]AV, err string) {
+	r := &decideRun{fn: fn, oracle: oracle, memo: map[ssa.Value]AV{}}
+	res, err = r.run()
+	return res, r.mem, err
+}
+
 // DecideTrace is Decide plus the executed instruction sequence and an evaluator for values on it.
 func DecideTrace(fn *ssa.Function, oracle Oracle) (res []AV, trace []ssa.Instruction, eval func(ssa.Value) AV, err string) {
 	r := &decideRun{fn: fn, oracle: oracle, memo: map[ssa.Value]AV{}}
@@ -815,6 +877,8 @@ type CallEvent struct {
 	ArgTypes  []types.Type
 	ArgFields []map[string]AV
 }
+
+var debugDecide = os.Getenv("STORAGECHECK_DEBUGDECIDE") != ""
 
 // DecideCalls runs fn like Decide and reports, in execution order, the calls selected by want — also those
 // made inside functions of the module that the path calls (statically, or through a function value the path
@@ -859,6 +923,9 @@ func DecideCalls(fn *ssa.Function, oracle Oracle, want func(ssa.CallInstruction)
 		evs = append(evs, ev)
 	}
 	visit = func(run *decideRun, ci ssa.CallInstruction, depth int) {
+		if debugDecide {
+			fmt.Fprintf(os.Stderr, "decide: %*svisit %s in %s\n", depth*2, "", ci.String(), run.fn.Name())
+		}
 		if want(ci) {
 			record(run, ci)
 			return
@@ -879,10 +946,16 @@ func DecideCalls(fn *ssa.Function, oracle Oracle, want func(ssa.CallInstruction)
 			saved := run.err
 			fval = run.eval(cc.Value)
 			run.err = saved
+			if debugDecide {
+				fmt.Fprintf(os.Stderr, "decide: %*s  function value %s = %s (fn %v)\n", depth*2, "", cc.Value.Name(), fval, fval.Fn)
+			}
 			if fval.Kind != "func" || fval.Fn == nil {
 				// a callback handed in from outside the decided function cannot make the listener's /
 				// store's own calls; a value built on the path could
 				if run.parent == nil && suppliedFromOutside(cc.Value) {
+					return
+				}
+				if fval.Kind == "sym" && fval.Sym == "external-func" {
 					return
 				}
 				if evErr == "" {
@@ -892,15 +965,15 @@ func DecideCalls(fn *ssa.Function, oracle Oracle, want func(ssa.CallInstruction)
 			}
 			callee = fval.Fn
 		}
-		if callee.Blocks == nil || callee.Pkg == nil || !strings.HasPrefix(callee.Pkg.Pkg.Path(), modPath) {
+		if callee.Blocks == nil || !inModule(callee) {
 			return
 		}
-		if !mayMakeWanted(callee, want, 3, map[*ssa.Function]bool{}) {
+		if !mayMakeWanted(callee, want, 5, map[*ssa.Function]bool{}) {
 			return
 		}
-		if depth >= 3 {
+		if depth >= 6 {
 			if evErr == "" {
-				evErr = "calls nested deeper than three levels below " + fn.Name()
+				evErr = "calls nested deeper than six levels below " + fn.Name()
 			}
 			return
 		}
@@ -1004,12 +1077,10 @@ func mayMakeWanted(fn *ssa.Function, want func(ssa.CallInstruction) bool, depth 
 			}
 			sc := cc.StaticCallee()
 			if sc == nil {
-				if suppliedFromOutside(cc.Value) {
-					continue
-				}
+				// (what a captured variable or parameter of a callee denotes is decided on the path, not here)
 				return true
 			}
-			if depth > 0 && sc.Pkg != nil && strings.HasPrefix(sc.Pkg.Pkg.Path(), modPath) && mayMakeWanted(sc, want, depth-1, seen) {
+			if depth > 0 && inModule(sc) && mayMakeWanted(sc, want, depth-1, seen) {
 				return true
 			}
 		}
@@ -1263,4 +1334,16 @@ func arrayLiteralElems(arr *ssa.Alloc) []ssa.Value {
 		}
 	}
 	return out
+}
+
+// inModule: fn belongs to the repository (a synthetic thunk or bound-method wrapper has no package of its own;
+// the method it stands for has).
+func inModule(fn *ssa.Function) bool {
+	if fn.Pkg != nil {
+		return strings.HasPrefix(fn.Pkg.Pkg.Path(), modPath)
+	}
+	if o := fn.Object(); o != nil && o.Pkg() != nil {
+		return strings.HasPrefix(o.Pkg().Path(), modPath)
+	}
+	return false
 }
